@@ -4,14 +4,13 @@ from .mir import callee, callee_matches, Prov
 from .ctx import where_of
 
 EXPLANATION = (
-    "Rules over the MIR of the import machinery: (cycle-guard) every call-graph cycle through the library "
-    "loader passes the `inserted` edge of an insert into the in-progress set, whose `already present` edge only "
-    "builds Err(LibraryImportCyclic); (pairing) after a successful insert every exit of the acquiring function — "
-    "normal return and each `?` — passes a release (remove on the same field, a callee that always removes, or "
-    "a drop of a guard whose Drop removes); (no-negative-cache) the factory table is written only on the "
-    "Continue edge of the load; (location) current_dir is consulted only when no program directory is "
-    "recorded; (errors-are-results) missing file and wrong-name outcomes are Err returns and the file reader "
-    "has no panicking call.")
+    'Decision tables of the import machinery: (cycle-guard, pairing) eval_import_set on a plain library reference '
+    '— the in-progress mark is set during the load and removed after success and after failure, a library already '
+    'in progress yields Err(LibraryImportCyclic) without loading and the outer mark stays; (no-negative-cache) a '
+    'failed instantiation or a failed file lookup leaves nothing in the instance cache or the factory table; '
+    '(location) library-file location table: program directory when recorded, working directory otherwise, file '
+    'present / absent; (errors-are-results) missing file and wrong-name outcomes are Err returns, the file reader '
+    'has no panicking call.')
 NOT_DECIDED = ("that loading *succeeds* for every acyclic healthy graph; behaviour of the file system; the content "
                "of error messages.")
 
@@ -300,6 +299,8 @@ def run(ctx):
     # ------------------------------------------------------------------ C14-errors-are-results
     ctx.rule("C14-errors-are-results", "missing / wrong-name / unreadable libraries are Err returns, not panics")
     d_rd = libtables.rule_reader(ctx, "C14-errors-are-results")
+    from . import ioerrors
+    ioerrors.rule(ctx, "C14-errors-are-results", "reading a library file")
 
     def _old_errors():
         # (a) not-exists edge -> Err(LibraryNotFound)
